@@ -145,7 +145,7 @@ def check_case(case) -> list[Fail]:
     from griffe import AliasResolutionError, CyclicAliasError
 
     top = G.unique_pkg_name("vr")
-    root = G.fresh_dir(C05._scratch(), top + "_d")
+    root, own = C05.case_root(top)
     try:
         G.write_files(root, G.render(case, top))
         try:
@@ -247,7 +247,7 @@ def check_case(case) -> list[Fail]:
                     )
         return fails
     finally:
-        shutil.rmtree(root, ignore_errors=True)
+        shutil.rmtree(own or root, ignore_errors=True)
 
 
 # ------------------------------------------------------------------------------------------------ known findings
